@@ -64,6 +64,28 @@ func (e *Err) Error() string { return e.Msg }
 var ErrFuel = errors.New("model: fuel exhausted")
 var ErrSize = errors.New("model: size budget exhausted")
 var ErrUnsupported = errors.New("model: construct outside the modelled language")
+var ErrMapOrder = errors.New("model: outcome depends on the unspecified map iteration order")
+
+// orderInsensitive: the body consists only of probe(...) calls whose arguments are literals or the loop variable.
+func orderInsensitive(body []*gen.Node, loopVar string) bool {
+	for _, s := range body {
+		if s.Kind != gen.Call || s.Name != "probe" {
+			return false
+		}
+		for _, a := range s.Args {
+			switch a.Kind {
+			case gen.Str, gen.Int, gen.Bool, gen.Nil:
+			case gen.Ident:
+				if a.Name != loopVar {
+					return false
+				}
+			default:
+				return false
+			}
+		}
+	}
+	return true
+}
 
 // PKey is one key of the point model.
 type PKey struct {
@@ -214,12 +236,13 @@ type Interp struct {
 	Size    int
 	MapLoop bool // a for-in over a map with >= 2 keys was executed: trace order is not unique
 
-	scopes []scope
-	exit   bool
-	brk    bool
-	cont   bool
-	stmt   *gen.Node
-	depth  int
+	scopes  []scope
+	exit    bool
+	brk     bool
+	cont    bool
+	stmt    *gen.Node
+	depth   int
+	eqDepth int
 
 	// Builtins outside the core (field builtins etc.) are supplied by the caller.
 	Extra map[string]func(in *Interp, call *gen.Node) (any, error)
@@ -485,6 +508,10 @@ func (in *Interp) forIn(s *gen.Node) error {
 		}
 		sort.Strings(keys)
 		if len(keys) >= 2 {
+			// iteration order is unspecified: only bodies whose effect does not depend on it are modelled
+			if !orderInsensitive(s.Body, s.X.Name) {
+				return ErrMapOrder
+			}
 			in.MapLoop = true
 		}
 		for _, k := range keys {
@@ -982,6 +1009,12 @@ func (in *Interp) numEq(l, r any) bool {
 
 // DeepEq is structural equality of collections.
 func (in *Interp) DeepEq(l, r any) bool {
+	in.eqDepth++
+	defer func() { in.eqDepth-- }()
+	if in.eqDepth > 64 { // self-containing collections: give the case up (fuel exhaustion)
+		in.Fuel = -1
+		return false
+	}
 	switch x := l.(type) {
 	case []any:
 		y, ok := r.([]any)
